@@ -413,7 +413,7 @@ def text_rules(eng, rep, src, fb, tags) -> None:
             continue
         g = grammar(delegate(body, fb), "enc")
         if "Insert" in g:
-            rep.violation("R13.3", TPL, h, "buffer.Insert(encoded…)", "sub-encodings are produced in private, byte-padded buffers and concatenated with Insert (which appends whole bytes and does not use the bit cursor): a field whose width is not a multiple of 8 is padded to a byte boundary, unlike the static codec")
+            rep.violation("R13.3", TPL, "encode handler of tag %s" % tag, "buffer.Insert(encoded…)", "sub-encodings are produced in private, byte-padded buffers and concatenated with Insert (which appends whole bytes and does not use the bit cursor): a field whose width is not a multiple of 8 is padded to a byte boundary, unlike the static codec")
         else:
             want = CANON_ENC.get(h)
             g2 = g
@@ -529,7 +529,7 @@ def typed_rules(eng, rep, tags) -> bool:
             rep.undecided("R13.3", TPL, h, "handler for tag %s" % tag, str(e))
             continue
         if "Insert" in g:
-            rep.violation("R13.3", TPL, h, "buffer.Insert(encoded…)", "sub-encodings are produced in private, byte-padded buffers and concatenated with Insert (which appends whole bytes and does not use the bit cursor): a field whose width is not a multiple of 8 is padded to a byte boundary, unlike the static codec")
+            rep.violation("R13.3", TPL, "encode handler of tag %s" % tag, "buffer.Insert(encoded…)", "(%s) sub-encodings are produced in private, byte-padded buffers and concatenated with Insert (which appends whole bytes and does not use the bit cursor): a field whose width is not a multiple of 8 is padded to a byte boundary, unlike the static codec" % h)
             continue
         want = CANON_ENC_TAG.get(tag)
         if want is None:
